@@ -8,6 +8,8 @@ def nats (xs : List Sexp) : Option (List Nat) := xs.mapM Sexp.nat?
 
 def parseMod : Sexp → Option Mod
   | .list [.atom "mod", .list (.atom "globals" :: gs), .list (.atom "helpers" :: hs), .list (.atom "entries" :: es), .list (.atom "io" :: ios)] => do
+    let inv := ios.any (fun f => match f with | .list (.atom "inv" :: _) => true | _ => false)
+    let ios := ios.filter (fun f => match f with | .list (.atom "inv" :: _) => false | _ => true)
     let ios ← ios.mapM (fun f => match f with
       | .list [l, .atom i, .atom sm] => do some ((← l.nat?), (if i == "-" then "" else i), (if sm == "-" then "" else sm))
       | _ => none)
@@ -22,7 +24,7 @@ def parseMod : Sexp → Option Mod
       | .list [.atom n, .atom st, .list [.atom "wg", x, y, z], .list (.atom "uses" :: u), .list (.atom "calls" :: c)] => do
           some ({ name := n, stage := st, wg := (← x.nat?, ← y.nat?, ← z.nat?), uses := ← nats u, calls := ← nats c } : Entry)
       | _ => none)
-    some { globals := gs, helpers := hs, entries := es, io := ios }
+    some { globals := gs, helpers := hs, entries := es, io := ios, posInv := inv }
   | _ => none
 
 def parseMap : Sexp → Option BMap
@@ -51,7 +53,10 @@ def describeSpv (b : Spv.Bin) : List String × List String :=
         let fl := (if has 14 then ["flat"] else []) ++ (if has 13 then ["noperspective"] else []) ++
                   (if has 16 then ["centroid"] else []) ++ (if has 17 then ["sample"] else [])
         s!"sc{sc}:loc{l}" ++ (if fl.isEmpty then "" else ":" ++ ",".intercalate fl)
-      | _, _, _, some bi => s!"sc{sc}:builtin{bi}"
+      | _, _, _, some bi =>
+        -- Invariant (18) on an output: the WGSL @invariant attribute of the position builtin
+        let inv := sc == 3 && decos.any (fun i => i.ws.getD 0 0 == id && i.ws.getD 1 0 == 18)
+        s!"sc{sc}:builtin{bi}" ++ (if inv then ":invariant" else "")
       | _, _, _, _ => s!"sc{sc}"
   let eps := (b.insts.filter (·.op == 15)).map (fun e =>
     let ws := e.ws.toList
